@@ -5,6 +5,7 @@ package main
 import (
 	"encoding/json"
 	"fmt"
+	"net/http"
 	"net/http/httptest"
 	"strconv"
 	"strings"
@@ -13,6 +14,7 @@ import (
 	"github.com/EdgeCast/vflow/ipfix"
 	"github.com/EdgeCast/vflow/verifsim/model"
 	"github.com/EdgeCast/vflow/verifsim/simrt"
+	"github.com/prometheus/client_golang/prometheus"
 )
 
 // Protocol names used throughout the driver.
@@ -71,6 +73,12 @@ type NodeCfg struct {
 	DiskReadMs      int               `json:"disk_read_ms,omitempty"` // simulated duration of a whole-file read
 	ExtraArgs       []string          `json:"extra_args,omitempty"`
 	Env             map[string]string `json:"env,omitempty"`
+	// deployment layout: the files of the configuration directory are symbolic
+	// links into a data directory (how a Kubernetes ConfigMap volume presents
+	// them); the temporary directory is on another file system than /tmp
+	StatsProm  bool `json:"stats_prom,omitempty"` // stats-format prometheus (vFlow's default): counters are read from /metrics
+	ConfLinked bool `json:"conf_linked,omitempty"`
+	TmpOtherFS bool `json:"tmp_other_fs,omitempty"`
 	ConfFile        string            `json:"conf_file,omitempty"` // content of /etc/vflow/vflow.conf
 	IPFIXCache      string            `json:"ipfix_cache,omitempty"`
 	NF9Cache        string            `json:"nf9_cache,omitempty"`
@@ -120,6 +128,11 @@ func resetGlobals(c *NodeCfg) {
 		im[k] = v
 	}
 	ipfix.InfoModel = im
+	// the Prometheus stats API registers its collectors and its handler in
+	// process-wide tables: a new process has empty ones
+	reg := prometheus.NewRegistry()
+	prometheus.DefaultRegisterer, prometheus.DefaultGatherer = reg, reg
+	http.DefaultServeMux = http.NewServeMux()
 }
 
 func bootArgs(c *NodeCfg) []string {
@@ -144,7 +157,11 @@ func bootArgs(c *NodeCfg) []string {
 	add("ipfix-rpc-enabled", false)
 	add("dynamic-workers", c.DynWorkers)
 	add("stats-enabled", true)
-	add("stats-format", "restful")
+	if c.StatsProm {
+		add("stats-format", "prometheus")
+	} else {
+		add("stats-format", "restful")
+	}
 	add("verbose", c.Verbose)
 	add("ipfix-tpl-cache-file", ipfixCachePath)
 	add("netflow9-tpl-cache-file", nf9CachePath)
@@ -202,6 +219,18 @@ func installFiles(s *simrt.Sim, c *NodeCfg) {
 		}
 		s.FS.Put(confDir+"/vflow.conf", []byte("sflow-type-filter: ["+strings.Join(l, ", ")+"]\n"))
 	}
+	if c.ConfLinked {
+		for _, name := range []string{"ipfix.elements", "vflow.conf", "mq.conf"} {
+			if b, ok := s.FS.Get(confDir + "/" + name); ok {
+				s.FS.Remove(confDir + "/" + name)
+				s.FS.Put(confDir+"/..data/"+name, b)
+				s.FS.PutSymlink(confDir+"/"+name, "..data/"+name)
+			}
+		}
+	}
+	if c.TmpOtherFS {
+		s.FS.Mounts = []string{"/tmp", "/var/tmp"}
+	}
 	if c.IPFIXCache != "" {
 		s.FS.Put(ipfixCachePath, []byte(c.IPFIXCache))
 	}
@@ -258,6 +287,10 @@ func fetchStats(s *simrt.Sim) (*FlowStats, string) {
 	}
 	rec := httptest.NewRecorder()
 	req := httptest.NewRequest("GET", "/flow", nil)
+	if s.HTTP[0].Handler == nil {
+		// ListenAndServe(addr, nil): the default mux, where the Prometheus API lives
+		return fetchProm(s)
+	}
 	if simrt.Self() == nil {
 		// called by the scheduler goroutine (between steps), which runs with
 		// race synchronisation events switched off: switch them on for the
@@ -276,6 +309,78 @@ func fetchStats(s *simrt.Sim) (*FlowStats, string) {
 		return nil, "stats: " + err.Error() + ": " + rec.Body.String()
 	}
 	return &fs, ""
+}
+
+// fetchProm reads the counters from the Prometheus text exposition.
+func fetchProm(s *simrt.Sim) (*FlowStats, string) {
+	rec := httptest.NewRecorder()
+	req := httptest.NewRequest("GET", "/metrics", nil)
+	h := http.DefaultServeMux
+	if simrt.Self() == nil {
+		simrt.RaceSyncOn()
+		h.ServeHTTP(rec, req)
+		simrt.RaceSyncOff()
+	} else {
+		simrt.BootAcquire()
+		h.ServeHTTP(rec, req)
+	}
+	if rec.Code != 200 {
+		return nil, fmt.Sprintf("stats: /metrics answered %d: %s", rec.Code, tail(rec.Body.String(), 200))
+	}
+	fs := &FlowStats{IPFIX: &ProtoStats{}, SFlow: &ProtoStats{}, NetflowV5: &ProtoStats{}, NetflowV9: &ProtoStats{}}
+	seen := 0
+	for _, line := range strings.Split(rec.Body.String(), "\n") {
+		if !strings.HasPrefix(line, "vflow_") {
+			continue
+		}
+		f := strings.Fields(line)
+		if len(f) != 2 {
+			continue
+		}
+		v, err := strconv.ParseFloat(f[1], 64)
+		if err != nil {
+			return nil, "stats: /metrics line " + line
+		}
+		name := strings.TrimPrefix(f[0], "vflow_")
+		i := strings.Index(name, "_")
+		if i < 0 {
+			continue
+		}
+		var ps *ProtoStats
+		switch name[:i] {
+		case "ipfix":
+			ps = fs.IPFIX
+		case "sflow":
+			ps = fs.SFlow
+		case "netflowv5":
+			ps = fs.NetflowV5
+		case "netflowv9":
+			ps = fs.NetflowV9
+		default:
+			continue
+		}
+		seen++
+		switch name[i+1:] {
+		case "udp_packets":
+			ps.UDPCount = uint64(v)
+		case "decoded_packets":
+			ps.DecodedCount = uint64(v)
+		case "mq_error":
+			ps.MQErrorCount = uint64(v)
+		case "workers":
+			ps.Workers = int32(v)
+		case "udp_queue":
+			ps.UDPQueue = int(v)
+		case "message_queue":
+			ps.MessageQueue = int(v)
+		case "udp_mirror_queue":
+			ps.UDPMirrorQueue = int(v)
+		}
+	}
+	if seen == 0 {
+		return nil, "stats: /metrics carries no vflow_ series: " + tail(rec.Body.String(), 200)
+	}
+	return fs, ""
 }
 
 // Published is one message taken from a message-queue channel / the sink.
